@@ -26,6 +26,8 @@ mod point;
 mod range;
 mod select;
 mod truncate;
+#[cfg(feature = "verif")]
+mod verif;
 
 #[cfg(test)]
 mod tests;
@@ -39,6 +41,8 @@ pub use constraint_system::{
 pub(crate) use constraint_system::{Selector, WireData, WiredWitness};
 pub use gate::Gate;
 pub(crate) use permutation::Permutation;
+#[cfg(feature = "verif")]
+pub use verif::{VerifRow, VerifSnapshot};
 
 /// Construct and prove circuits
 #[derive(Debug, Clone)]
